@@ -122,7 +122,7 @@ def run(ctx, pool):
     n_adv = len(tw.traces)
     n = ctx.n(1600, 400000)
     per = max(150, n // 64)
-    rjobs = [(ctx.seed * 100019 + 7 + j, per, 0.35, None) for j in range((n + per - 1) // per)]
+    rjobs = [(ctx.seed * 100019 + 7 + j, per, 0.35, None, True) for j in range((n + per - 1) // per)]
     for traces, st in core.parallel("harness.rec_solver", "record_job", rjobs):
         tw.traces.extend(traces)
         stats["nontrivial"] |= st["nontrivial"]
